@@ -131,6 +131,13 @@ class Interp:
         elif k in ("obj", "dict", "opaque"):
             if isinstance(v, Obj):
                 return v.ref
+            if isinstance(v, ExcObj) and k == "opaque":
+                # an exception instance stored in the heap: a fresh opaque object that remembers whether it is a TransportError
+                from . import models
+                r = self.alloc(TOpaque("Exception"))
+                te = self.lib.exc_class("TransportError")
+                self.c.assume(models.exc_is_transport_error(r.ref) == z3.BoolVal(v.cls.is_subclass_of(te)))
+                return r.ref
         elif k == "proto":
             if isinstance(v, ModuleVal):
                 return z3.IntVal(self.w.protocol_modules().index(v))
@@ -1047,6 +1054,10 @@ class Interp:
         e = self.ev(s.exc, fr)
         if isinstance(e, ClassVal):
             e = self.instantiate(e, [], {}, fr, s)
+        if isinstance(e, Obj) and e.typ.kind == "opaque" and tname(e.typ) == "Exception":
+            from . import models
+            is_te = self.c.branch(models.exc_is_transport_error(e.ref), "stored-exception-is-transport-error")
+            e = self.make_exc("TransportError" if is_te else "Exception", site=s)
         if not isinstance(e, ExcObj):
             raise Unsupported(f"raise of {e!r}")
         if s.cause is not None:
